@@ -966,7 +966,62 @@ func caseText(q string, kvs []KV, bs int, mode string, fault int) string {
 	if fault >= 0 {
 		f = fmt.Sprintf(" fault@%d", fault)
 	}
+	if len(kvs) > 64 {
+		// the large scenario: the protocol line carries the store; the case names it
+		sk := sortedKVs(kvs)
+		return fmt.Sprintf("%s | store of %d pairs {%s, … , %s} | bs=%d %s%s", q, len(kvs), showKVs(sk[:2]), showKVs(sk[len(sk)-1:]), bs, mode, f)
+	}
 	return fmt.Sprintf("%s | store {%s} | bs=%d %s%s", q, showKVs(sortedKVs(kvs)), bs, mode, f)
+}
+
+// clipPair shortens two long answers to a window around their first difference
+func clipPair(a, b string) (string, string) {
+	if len(a) <= 4000 && len(b) <= 4000 {
+		return a, b
+	}
+	i := 0
+	for i < len(a) && i < len(b) && a[i] == b[i] {
+		i++
+	}
+	win := func(s string) string {
+		lo, hi := max(0, i-300), min(len(s), i+500)
+		return fmt.Sprintf("(%d bytes, first difference at %d) …%s…", len(s), i, s[lo:hi])
+	}
+	return win(a), win(b)
+}
+
+// diffKVs describes two long pair lists by what each has and the other has not
+func diffKVs(got, want []KV) (string, string) {
+	if len(got) <= 64 && len(want) <= 64 {
+		return showKVs(got), showKVs(want)
+	}
+	in := func(xs []KV) map[KV]bool {
+		m := map[KV]bool{}
+		for _, x := range xs {
+			m[x] = true
+		}
+		return m
+	}
+	g, w := in(got), in(want)
+	var extra, missing []KV
+	for _, x := range got {
+		if !w[x] {
+			extra = append(extra, x)
+		}
+	}
+	for _, x := range want {
+		if !g[x] {
+			missing = append(missing, x)
+		}
+	}
+	first := func(xs []KV) string {
+		if len(xs) > 8 {
+			return showKVs(xs[:8]) + ",…"
+		}
+		return showKVs(xs)
+	}
+	return fmt.Sprintf("%d pairs, %d of them not expected: %s", len(got), len(extra), first(extra)),
+		fmt.Sprintf("%d pairs, %d of them not among the engine's: %s", len(want), len(missing), first(missing))
 }
 
 // corr runs one (statement, store, mode, fault) on engine and model and compares the complete answers
@@ -979,7 +1034,8 @@ func (pe *planEnv) corr(info *stmtInfo, sw string, kvs []KV, bs int, mode string
 	}
 	pe.col.Eval(1)
 	if e := eng.render(); e != resp {
-		pe.find("correspondence", info.Kind+"-vs-model", caseText(info.Q, kvs, bs, mode, fault)+" | node "+nodeText(info), line, e, resp, planProps)
+		ce, cr := clipPair(e, resp)
+		pe.find("correspondence", info.Kind+"-vs-model", caseText(info.Q, kvs, bs, mode, fault)+" | node "+nodeText(info), line, ce, cr, planProps)
 	}
 	return eng, nil
 }
@@ -1019,7 +1075,8 @@ func (pe *planEnv) selectOracles(info *stmtInfo, table map[string]byte, kvs []KV
 	}
 	if evaluable {
 		if eng.Outcome != "ok" || showKVs(eng.Rows) != showKVs(want) {
-			pe.find("property", "select-rows", cs, line, eng.Outcome+" "+showKVs(eng.Rows), "ok "+showKVs(want), []string{"C01"})
+			g, w := diffKVs(eng.Rows, want)
+			pe.find("property", "select-rows", cs, line, eng.Outcome+" "+g, "ok "+w, []string{"C01"})
 		}
 	}
 }
@@ -1058,7 +1115,23 @@ func (pe *planEnv) deleteOracles(info *stmtInfo, table map[string]byte, kvs []KV
 	}
 	pe.col.Hist("C11:strategy:" + eng.PlanType)
 	if eng.Outcome != "ok" || eng.Store.Dump() != dumpOf(want) {
-		pe.find("property", "delete-effect", cs, line, eng.Outcome+" "+eng.Store.Dump(), "ok "+dumpOf(want)+" (select returned "+showKVs(sr.Rows)+")", []string{"C11"})
+		if len(kvs) > 64 {
+			left := map[string]bool{}
+			for _, p := range strings.Split(eng.Store.Dump(), ",") {
+				left[strings.SplitN(p, "=", 2)[0]] = true
+			}
+			var survivors []KV
+			for _, kv := range sr.Rows {
+				if left[hxs(kv.K)] {
+					survivors = append(survivors, kv)
+				}
+			}
+			g, _ := diffKVs(survivors, nil)
+			pe.find("property", "delete-effect", cs, line, eng.Outcome+" pairs the select returns that are still stored: "+g,
+				fmt.Sprintf("ok: the %d pairs the select returns are gone, the other %d are kept", len(sr.Rows), len(want)), []string{"C11"})
+		} else {
+			pe.find("property", "delete-effect", cs, line, eng.Outcome+" "+eng.Store.Dump(), "ok "+dumpOf(want)+" (select returned "+showKVs(sr.Rows)+")", []string{"C11"})
+		}
 	}
 	if eng.PlanType == "*kvql.DeletePlan" {
 		if msg := trafficOracle(info.Node, kvs, eng.Store.Log, false); msg != "" {
@@ -1282,7 +1355,84 @@ func runPLAN(e *Env) (*Summary, error) {
 			return nil, err
 		}
 	}
+	if err := planLarge(e, col); err != nil {
+		return nil, err
+	}
 	return col.Finish(start), nil
+}
+
+// planLarge: one scenario per run at the DEFAULT batch size 32 on a store of ~1500 pairs: deletes
+// that choose more than 1024 pairs through scan batches of irregular size (a rejecting filter, a
+// LIMIT offset that is no multiple of the batch size) and selects over the same store.  Engine
+// rows, call log and final store = model (correspondence); the delete and select oracles (C11, C01,
+// C13, C18) as for the small stores.  A handful of statements: a second or two.
+func planLarge(e *Env, col *Collector) error {
+	t0 := time.Now()
+	kvql.PlanBatchSize = 32
+	d, err := StartDriver(e.DriverPath)
+	if err != nil {
+		return err
+	}
+	defer d.Close()
+	r := NewRand(e.Seed, "PLAN-large", 0)
+	n := 1450 + r.Intn(120)
+	kvs := make([]KV, 0, n)
+	for i := 0; len(kvs) < n; i++ {
+		if r.Chance(1, 25) {
+			continue // gaps in the key sequence
+		}
+		v := "x"
+		if !r.Chance(3, 20) { // ~15 % of the values are 'x'
+			v = pick(r, []string{"y", "z", "1", "", "xx"})
+		}
+		kvs = append(kvs, KV{fmt.Sprintf("k%05d", i), v})
+	}
+	stmts := []string{
+		"delete where value != 'x'",
+		"delete where key >= '' limit 5, 1200",
+		"select * where value != 'x'",
+		fmt.Sprintf("delete where key ^= 'k' & value != 'x' limit %d, %d", 1+r.Intn(31), 1100+r.Intn(150)),
+		fmt.Sprintf("select * where key >= 'k%05d' & value = 'x'", r.Intn(400)),
+	}
+	if e.Tier == "thorough" {
+		stmts = append(stmts,
+			"delete where true",
+			"delete where key > 'k00010' limit 64, 1024",
+			fmt.Sprintf("delete where value != 'y' limit %d", 1030+r.Intn(300)),
+			fmt.Sprintf("delete where key between 'k00003' and 'k%05d'", 1300+r.Intn(200)),
+			"select * where key ^= 'k0' | value = 'x'",
+			"delete where value = 'x'")
+	}
+	for si, q := range stmts {
+		pe := &planEnv{col: col, d: d, seed: e.Seed, idx: 32_000_000 + uint64(si), grp: "PLAN"}
+		c := planCase{q: q, kvs: kvs}
+		sw, table, ok := pe.prepare(&c)
+		if !ok {
+			col.Note("large scenario: statement outside the wire's domain: " + q)
+			continue
+		}
+		col.Hist("large:" + c.info.Kind)
+		modes := []string{"batch", "next"}
+		if e.Tier != "thorough" && si >= 2 {
+			modes = modes[:1]
+		}
+		for _, mode := range modes {
+			eng, err := pe.corr(c.info, sw, kvs, 32, mode, -1)
+			if err != nil {
+				return err
+			}
+			line := planLine(q, mode, 32, -1, kvs, sw)
+			col.Hist("large-outcome:" + eng.Outcome)
+			col.Nontrivial(fmt.Sprintf("large/%s/%s", q, mode))
+			if c.info.Kind == "select" {
+				pe.selectOracles(c.info, table, kvs, 32, mode, eng, line)
+			} else {
+				pe.deleteOracles(c.info, table, kvs, 32, mode, eng, line)
+			}
+		}
+	}
+	col.Note(fmt.Sprintf("large scenario: %d statements on a store of %d pairs at PlanBatchSize=32 (%.1fs)", len(stmts), len(kvs), time.Since(t0).Seconds()))
+	return nil
 }
 
 // mgetKeys: NewMultiGetPlan's key list against the model
